@@ -12,7 +12,11 @@ cursor histories; append sessions; selective reads (the stand-in backend is made
 handed for formats 6-10, as lazrs does: what is not selected comes back as zeros) against Model/LazSelect.v; the values of the Flag
 class DecompressionSelection; compressed files written with encoding_errors / non-ASCII header strings.
 Search (implementation only): LAZ vs LAS of the same data through every route of the property, every optional parameter of the
-readers (decompression_selection in every form) and of the writers / appenders (encoding_errors, closefd, laz_backend forms)."""
+readers (decompression_selection in every form) and of the writers / appenders (encoding_errors, closefd, laz_backend forms).
+The FORMS of laz_backend (absent, enum member, a backend OBJECT that is not an enum member, list / tuple / set, iterator, generator)
+are swept completely over every entry point that takes the argument (form_cases / form_verdict), compressed against uncompressed
+of the same data; the stand-in logs which backend variants the glue constructs (VARIANT_LOG) and the model (Model/LazForm.v over
+gen_*_backends of Gen/GenC14.v) says which ones the normalised selection visits."""
 import inspect
 import io
 import os
@@ -38,6 +42,8 @@ ASSUMPTIONS = [
     "a backend's stream may hold absolute file offsets (the chunk table offset): the model treats the backend as specialised to the "
     "data offset of the file at hand, which is the same for every file a single theorem speaks about",
     "the path suffix is taken from os.path.splitext / pathlib.Path.suffix (library code), its lower-casing is ASCII in the model",
+    "the default backend selection is the one of an installation with lazrs and without laszip: both lazrs variants, the parallel one "
+    "first (gen_default_backends, read from _DEFAULT_BACKENDS / the LazBackend enum); a selection names backends whose is_available() holds",
     "VLR lists handed to the writer hold no record with the LasZip ids that is not a LasZipVlr object (what the reader produces)",
     "x -> x*scale+offset is monotone in binary64 for the positive scales used (hypothesis ap_ok of the theorems)",
     "a backend honours the decompression selection it is handed as lazrs does: for point formats 6-10 a layer that was not asked for "
@@ -73,13 +79,70 @@ def B():
     return laspy.LazBackend
 
 
+class Fresh:
+    """a form of the laz_backend argument that is used up by one call (an iterator, a generator): made anew for every call"""
+
+    def __init__(self, make):
+        self.make = make
+
+
+_OWN = {}
+
+
+def own_backend(parallel):
+    """a conforming backend object of the caller's own: an ILazBackend that is NOT a member of the LazBackend enum (the
+    property speaks of 'any conforming LAZ backend'); it honours the contract by delegating to the lazrs glue"""
+    if parallel not in _OWN:
+        from laspy._compression.lazbackend import ILazBackend
+
+        class OwnBackend(ILazBackend):
+            def __init__(self, par):
+                self._inner = B().LazrsParallel if par else B().Lazrs
+
+            def __repr__(self):
+                return f"OwnBackend({self._inner.name})"
+
+            def is_available(self):
+                return True
+
+            @property
+            def supports_append(self):
+                return True
+
+            def create_appender(self, dest, header):
+                return self._inner.create_appender(dest, header)
+
+            def create_reader(self, source, header, decompression_selection=None):
+                return self._inner.create_reader(source, header, decompression_selection=decompression_selection)
+
+            def create_writer(self, dest, header):
+                return self._inner.create_writer(dest, header)
+        _OWN[parallel] = OwnBackend(parallel)
+    return _OWN[parallel]
+
+
 def backend_choices():
+    """(name, value, variants in the order they are tried: P = parallel, S = serial) - every FORM the argument laz_backend
+    may take: absent, one enum member, one backend OBJECT that is not an enum member (an ILazBackend of the caller's own,
+    laspy's own LazrsBackend instance), list / tuple / set of either or both, an iterator, a generator"""
+    from laspy._compression.lazrsbackend import LazrsBackend
     b = B()
+    os_, op_ = own_backend(False), own_backend(True)
     return [("none", None, "PS"), ("serial", b.Lazrs, "S"), ("parallel", b.LazrsParallel, "P"),
-            ("list-ps", [b.LazrsParallel, b.Lazrs], "PS"), ("tuple-sp", (b.Lazrs, b.LazrsParallel), "SP"), ("list-s", [b.Lazrs], "S")]
+            ("list-ps", [b.LazrsParallel, b.Lazrs], "PS"), ("tuple-sp", (b.Lazrs, b.LazrsParallel), "SP"), ("list-s", [b.Lazrs], "S"),
+            ("own-serial", os_, "S"), ("own-parallel", op_, "P"), ("lazrsbackend-serial", LazrsBackend(parallel=False), "S"),
+            ("list-own-ps", [op_, os_], "PS"), ("tuple-own-enum-sp", (os_, b.LazrsParallel), "SP"), ("set-s", {b.Lazrs}, "S"),
+            ("iterator-ps", Fresh(lambda: iter([b.LazrsParallel, b.Lazrs])), "PS"),
+            ("generator-own-s", Fresh(lambda: (x for x in (os_,))), "S"),
+            ("generator-sp", Fresh(lambda: (x for x in (b.Lazrs, op_))), "SP")]
+
+
+BASE_FORMS = ("none", "serial", "parallel", "list-ps", "tuple-sp", "list-s")
 
 
 def kw(backend):
+    if isinstance(backend, Fresh):
+        backend = backend.make()
     return {} if backend is None else {"laz_backend": backend}
 
 
@@ -304,14 +367,17 @@ def decision_cases(ctx):
     os.makedirs(os.path.join(_TMP, "dir.las"), exist_ok=True)
     out = []
     b = B()
-    bsel = [("none", None), ("serial", b.Lazrs), ("list", [b.LazrsParallel, b.Lazrs])]
+    base = [("none", None), ("serial", b.Lazrs), ("list", [b.LazrsParallel, b.Lazrs])]
+    others = [(nm, bk) for nm, bk, _ in backend_choices() if nm not in ("none", "serial", "list-ps")]
     for route in ("open", "lasdata", "writer"):
         dests = [("path", nm) for nm in NAMES] + [("pathlib", nm) for nm in NAMES[:6]] + [("stream", None), ("file", "f.laz"), ("file", "f.las")]
         if route == "writer":
             dests = [("stream", None), ("file", "f.laz")]
         for kind, nm in dests:
             for dc in (None, True, False):
-                for bname, bk in bsel:
+                # every form of the argument decides like "a backend was given": the three usual ones everywhere, two more of
+                # the other forms (bare own object, set, iterator, generator ...) per destination
+                for bname, bk in base + rng.sample(others, 2):
                     las = tiny_las(rng)
                     path = os.path.join(_TMP, nm) if nm else None
                     is_path = kind in ("path", "pathlib")
@@ -1229,6 +1295,214 @@ def param_cases(ctx):
     return _PARAMS
 
 
+# ---------------------------------------------------------------------------------
+# the FORMS of the argument laz_backend: every entry point that takes it (laspy.read, laspy.open r / w / a, LasReader,
+# LasWriter, LasAppender, LasData.write) x every form (backend_choices) x compressed against uncompressed source /
+# destination of the same data.  A complete sweep (not sampled): the stand-in records which backend variants each
+# entry point constructed (VARIANT_LOG), the model says which ones the normalised selection tries.
+# ---------------------------------------------------------------------------------
+VARIANT_LOG = []        # ("r" | "w" | "a", "P" | "S") for every decompressor / compressor / appender the glue tried to construct
+FORM_KIND = {"none": "D", "serial": "1", "parallel": "1", "own-serial": "1", "own-parallel": "1", "lazrsbackend-serial": "1"}
+READ_ENTRIES = ("laspy.read", "laspy.open(r)", "LasReader")
+WRITE_ENTRIES = ("laspy.open(w)", "LasWriter", "LasData.write", "laspy.open(w,path)", "LasData.write(path)")
+APPEND_ENTRIES = ("laspy.open(a)", "LasAppender", "laspy.open(a,path)")
+
+
+FORM_CLASS = {"none": "absent", "serial": "one enum member", "parallel": "one enum member", "own-serial": "one backend object, not an enum member",
+              "own-parallel": "one backend object, not an enum member", "lazrsbackend-serial": "one backend object, not an enum member",
+              "iterator-ps": "iterator / generator", "generator-own-s": "iterator / generator", "generator-sp": "iterator / generator"}
+
+
+def form_class(name):
+    return FORM_CLASS.get(name, "list / tuple / set")
+
+
+def form_token(name, tok):
+    """the form as the model is told it: D (absent), 1<variant> (one bare backend), M<variants> (an iterable)"""
+    k = FORM_KIND.get(name, "M")
+    return "D" if k == "D" else k + tok
+
+
+def log_variants():
+    if getattr(fake_lazrs, "_c14_logs_variants", False):
+        return
+
+    def wrap(base, what, variant):
+        class Logging(base):
+            def __init__(self, *a, **k):
+                VARIANT_LOG.append((what, variant))
+                super().__init__(*a, **k)
+        Logging.__name__, Logging.__qualname__ = base.__name__, base.__qualname__
+        return Logging
+    for nm, what, variant in (("LasZipDecompressor", "r", "S"), ("ParLasZipDecompressor", "r", "P"), ("LasZipCompressor", "w", "S"),
+                              ("ParLasZipCompressor", "w", "P"), ("LasZipAppender", "a", "S"), ("ParLasZipAppender", "a", "P")):
+        setattr(fake_lazrs, nm, wrap(getattr(fake_lazrs, nm), what, variant))
+    fake_lazrs._c14_logs_variants = True
+
+
+log_variants()
+
+
+def form_data(which, cs):
+    """two small data sets straddling the chunk size: a legacy format, and a 1.4 file with an EVLR and a user VLR"""
+    import laspy
+    rng = random.Random(1400 + which)
+    if which == 0:
+        h = laspy.LasHeader(version="1.2", point_format=3)
+        n, evl = cs + 1, []
+    else:
+        h = laspy.LasHeader(version="1.4", point_format=6)
+        n, evl = 2 * cs + 1, [laspy.VLR("Ec14", 9, "an evlr", b"E" * 33)]
+    h.vlrs.append(laspy.VLR("Uc14", 7, "user record", b"abc"))
+    return h, lasio.rand_points(rng, h, n), lasio.rand_points(rng, h, cs), evl
+
+
+def form_run(entry, bsel, compress, h, pts, more, evl, seekable, tmp):
+    """one use of one entry point with laz_backend in the given form, on a compressed or an uncompressed source / destination of
+    the same data: outcome, what is read back, which backend variants were constructed on the way"""
+    import laspy
+    vl = laspy.vlrs.vlrlist.VLRList
+    d = {"h": h, "pts": pts, "evl": evl, "cuts": [(0, len(pts))]}
+    out = {"outcome": "ok", "summary": None}
+    del VARIANT_LOG[:]
+    try:
+        if entry in READ_ENTRIES:
+            raw = write_session(d, compress, False, backend=B().Lazrs)
+            del VARIANT_LOG[:]
+            src = io.BytesIO(raw) if seekable else NonSeekable(raw)
+            if entry == "laspy.read":
+                las = laspy.read(src, closefd=False, **kw(bsel))
+            elif entry == "laspy.open(r)":
+                with laspy.open(src, closefd=False, **kw(bsel)) as r:
+                    if seekable:
+                        r.read_points(1)
+                        r.seek(0)
+                    las = r.read()
+            else:
+                r = laspy.LasReader(src, closefd=False, **kw(bsel))
+                las = r.read()
+                r.close()
+            out["raw"] = raw
+            out["summary"] = read_summary(las)
+        else:
+            path = os.path.join(tmp, "f.laz" if compress else "f.las")
+            if entry in WRITE_ENTRIES:
+                dest = path if "path" in entry else io.BytesIO()
+                dc = {} if "path" in entry else {"do_compress": compress}
+                if entry.startswith("laspy.open"):
+                    with laspy.open(dest, mode="w", header=h, closefd="path" in entry, **dc, **kw(bsel)) as w:
+                        w.write_points(pts)
+                        if evl:
+                            w.write_evlrs(vl(list(evl)))
+                elif entry == "LasWriter":
+                    w = laspy.LasWriter(dest, h, closefd=False, **dc, **kw(bsel))
+                    w.write_points(pts)
+                    if evl:
+                        w.write_evlrs(vl(list(evl)))
+                    w.close()
+                else:
+                    las = laspy.LasData(h)
+                    las.points = pts
+                    if evl:
+                        las.evlrs = vl(list(evl))
+                    las.write(dest, **dc, **kw(bsel))
+            else:
+                raw = write_session(d, compress, False, backend=B().Lazrs)
+                del VARIANT_LOG[:]
+                if "path" in entry:
+                    with open(path, "wb") as f:
+                        f.write(raw)
+                    dest = path
+                else:
+                    dest = io.BytesIO(raw)
+                if entry.startswith("laspy.open"):
+                    with laspy.open(dest, mode="a", closefd="path" in entry, **kw(bsel)) as a:
+                        a.append_points(more)
+                else:
+                    from laspy.lasappender import LasAppender
+                    a = LasAppender(dest, closefd=False, **kw(bsel))
+                    a.append_points(more)
+                    a.close()
+            if "path" in entry:
+                with open(path, "rb") as f:
+                    raw = f.read()
+            else:
+                raw = dest.getvalue()
+            out["tried"] = "".join(v for _, v in VARIANT_LOG)
+            out["raw"] = raw
+            out["compressed_bit"] = bool(fmt_byte(raw) & 0x80)
+            out["laszip_records"] = sum(is_lz(t) for t in raw_vlrs(raw))
+            out["summary"] = read_summary(laspy.read(io.BytesIO(raw)))
+    except Exception as ex:  # noqa
+        out["outcome"] = f"raised {type(ex).__name__}: {str(ex)[:100]}"
+    out.setdefault("tried", "".join(v for _, v in VARIANT_LOG))
+    del VARIANT_LOG[:]
+    return out
+
+
+_FORMS = None
+
+
+def form_cases(ctx):
+    global _FORMS
+    if _FORMS is None:
+        _FORMS = []
+        tmp = tempfile.mkdtemp(prefix="verif_c14_f_", dir="/var/tmp")
+        try:
+            for which in (0, 1):
+                cs = (3, 5)[which]
+                fake_lazrs.CHUNK_SIZE = cs
+                h, pts, more, evl = form_data(which, cs)
+                want = {"read": np.concatenate([pts.array]).tobytes(), "append": np.concatenate([pts.array, more.array]).tobytes()}
+                for entry in READ_ENTRIES + WRITE_ENTRIES + APPEND_ENTRIES:
+                    for name, bsel, tok in backend_choices():
+                        for seekable in ((True, False) if entry in READ_ENTRIES else (True,)):
+                            if not seekable and "S" not in tok:
+                                continue          # a parallel-only selection may refuse a source that cannot seek (the contract)
+                            inp = {"case": "backend-form", "entry": entry, "form": name, "variants": tok, "data": which, "chunk_size": cs,
+                                   "version": str(h.version), "format": h.point_format.id, "points": len(pts), "evlrs": len(evl),
+                                   "appended": len(more) if entry in APPEND_ENTRIES else 0, "seekable_source": seekable}
+                            try:
+                                z = form_run(entry, bsel, True, h, pts, more, evl, seekable, tmp)
+                                u = form_run(entry, bsel, False, h, pts, more, evl, seekable, tmp)
+                            except Exception as ex:  # noqa
+                                z = u = {"outcome": f"could not be run: {type(ex).__name__}: {ex}", "summary": None, "tried": ""}
+                            _FORMS.append({"inp": inp, "z": z, "u": u, "tok": form_token(name, tok),
+                                           "expect_points": want["append" if entry in APPEND_ENTRIES else "read"]})
+        finally:
+            shutil.rmtree(tmp, ignore_errors=True)
+    return _FORMS
+
+
+def form_verdict(c):
+    """(kind, observed) when the entry point, handed laz_backend in this form, does not treat the compressed source / destination
+    like the uncompressed one of the same data"""
+    inp, z, u = c["inp"], c["z"], c["u"]
+    what = f"{inp['entry']} with laz_backend given as {form_class(inp['form'])}"
+    side = "source" if inp["entry"] in READ_ENTRIES else "destination"
+    if z["outcome"] != u["outcome"]:
+        return (f"forms of laz_backend: {what}: the compressed {side} fails where the uncompressed one does not (or the reverse)",
+                f"compressed: {z['outcome']}; uncompressed: {u['outcome']}")
+    if z["summary"] is None or u["summary"] is None:
+        return (f"forms of laz_backend: {what}: refused for both kinds of {side}", f"{z['outcome']}")
+    dk = diff_keys(u["summary"], z["summary"])
+    if dk:
+        return (f"forms of laz_backend: {what}: read-back differs between compressed and uncompressed: " + ",".join(dk[:4]),
+                show_diff(u["summary"], z["summary"], dk))
+    if z["summary"]["points"] != c["expect_points"]:
+        return (f"forms of laz_backend: {what}: the records read back are not the records written", f"{len(z['summary']['points'])} bytes")
+    if side == "destination":
+        if not z["compressed_bit"] or z["laszip_records"] != 1 or u["compressed_bit"] or u["laszip_records"] != 0:
+            return (f"forms of laz_backend: {what}: compressed bit / LasZip record of the file produced",
+                    f"compressed destination: bit {z['compressed_bit']}, {z['laszip_records']} LasZip record(s); uncompressed: bit "
+                    f"{u['compressed_bit']}, {u['laszip_records']} record(s)")
+    if u["tried"]:
+        return (f"forms of laz_backend: {what}: a LAZ backend was constructed for an uncompressed {side}", u["tried"])
+    if inp["form"] != "none" and not (z["tried"] and inp["variants"].startswith(z["tried"])):
+        return (f"forms of laz_backend: {what}: the backends constructed are not the ones selected, in the order given",
+                f"selected variants (P = parallel, S = serial): {inp['variants']}; constructed: {z['tried'] or '-'}")
+    return None
+
 
 # ---------------------------------------------------------------------------------
 # correspondence
@@ -1258,7 +1532,11 @@ def correspond(ctx):
         "LasData.write / laspy.open('a') x BytesIO / file object / path x encoding_errors in {strict, ignore, replace, "
         "backslashreplace, xmlcharrefreplace} x header strings, VLR and EVLR descriptions that are not ASCII (str and bytes) x closefd "
         "x laz_backend as member / list / tuple / iterator, compressed against uncompressed: same stage and kind of failure, same "
-        "closed state of the destination, same read-back. "
+        "closed state of the destination, same read-back. Forms of laz_backend (complete sweep): every entry point that takes it "
+        "(laspy.read, laspy.open r/w/a, LasReader, LasWriter, LasAppender, LasData.write, stream and path) x every form (absent, enum "
+        "member, a backend OBJECT that is not an enum member - own ILazBackend, LazrsBackend instance -, list / tuple / set of either, "
+        "iterator, generator) x seekable / non-seekable source x compressed against uncompressed of the same data; the backend variants "
+        "constructed on the way (in order) are compared with what the model's normalised selection visits. "
         "non-trivial = compressed data with at least one point or a decision/bit/history case; distinct by inputs")
     dis = []
     cmds, tags = [], []
@@ -1372,6 +1650,12 @@ def correspond(ctx):
               f"{common.hexb(lasio.rec_bytes(ul.points))} {et}", ("pfile", i))
         except Exception as ex:  # noqa
             ctx.notes.append(f"parameter session {i}: the uncompressed file could not be turned into a model input: {type(ex).__name__}: {ex}")
+    # (11) the forms of laz_backend: what the normalised selection visits / tries, against the backend variants the glue constructed
+    fcs = form_cases(ctx)
+    for i, c in enumerate(fcs):
+        if c["z"].get("raw") and c["z"]["outcome"] == "ok" and fmt_byte(c["z"]["raw"]) & 0x80:
+            q(f"chunk {c['inp']['chunk_size']}", ("nop", i))
+            q(f"forms {c['tok']} {'T' if c['inp']['seekable_source'] else 'F'} {common.hexb(c['z']['raw'])}", ("forms", i))
     outs = common.run_model(cmds, name="c14")
 
     def bad(kind, inp, model, impl):
@@ -1453,6 +1737,20 @@ def correspond(ctx):
                     ps = e["h"].point_format.size
                     bad("selective read of a compressed file: records differ", sel_case_input(e["dd"], c),
                         f"record {k // ps} byte {k % ps}: {mb[k] if k < len(mb) else None}", f"{got[k] if k < len(got) else None}")
+        elif tag == "forms":
+            c = fcs[i]
+            inp = c["inp"]
+            ctx.case(("forms", inp["entry"], inp["form"], inp["data"], inp["seekable_source"]), nontrivial=True)
+            ctx.count("backend variants constructed:" + inp["entry"] + ":" + c["tok"] + ("" if inp["seekable_source"] else ":non-seekable"))
+            m = mo.split(" ")
+            if len(m) != 7:
+                bad("forms of laz_backend: model", inp, mo[:120], c["z"]["tried"])
+                continue
+            # readers: every variant the loop tried; writers / appenders: the one that was constructed (the first of the selection)
+            want = m[3] if inp["entry"] in READ_ENTRIES else (m[4] if inp["entry"] in WRITE_ENTRIES else m[2][:1])
+            if c["z"]["tried"] != want:
+                bad("forms of laz_backend: backend variants constructed, in order", inp,
+                    f"{want} (the selection normalises to reader {m[0]}, writer {m[1]}, appender {m[2]})", c["z"]["tried"] or "-")
         elif tag == "pfile":
             pc_ = pcs[i]
             ctx.case(("pfile", repr(pc_["pd"])), nontrivial=bool(pc_["pd"]["strings"]))
@@ -1661,6 +1959,16 @@ def search(ctx, seeds):
         if not cf.is_point_format_compressed(c) or cf.compressed_id_to_uncompressed(c) != f or cf.is_point_format_compressed(f):
             add("compressed bit", {"id": f}, f"to_compressed={c}, is_compressed={cf.is_point_format_compressed(c)}, back={cf.compressed_id_to_uncompressed(c)}")
 
+    # (i) the forms of laz_backend x every entry point that takes it, compressed against uncompressed (a complete sweep)
+    for c in form_cases(ctx):
+        inp = c["inp"]
+        ctx.case(("backend-form", inp["entry"], inp["form"], inp["data"], inp["seekable_source"]), nontrivial=True,
+                 sample=inp if inp["form"] == "own-serial" and inp["data"] == 1 and inp["entry"] == "laspy.open(a)" else None)
+        ctx.count("laz_backend form:" + form_class(inp["form"]))
+        ctx.count("laz_backend entry point:" + inp["entry"] + ("" if inp["seekable_source"] else " (non-seekable)"))
+        v = form_verdict(c)
+        if v:
+            add(v[0], inp, v[1])
     # (b) VLR-list histories: counts of LasZip records
     for hh in histories(ctx):
         ops_seen = []
@@ -2052,6 +2360,30 @@ def replay(ctx, data):
         print("  verdict:", verdict)
         print("REPRODUCED" if verdict else "not reproduced on this source tree")
         return 1 if verdict else 0
+    if isinstance(inp, dict) and inp.get("case") == "backend-form":
+        import laspy  # noqa
+        cs = int(inp["chunk_size"])
+        fake_lazrs.CHUNK_SIZE = cs
+        h, pts, more, evl = form_data(int(inp["data"]), cs)
+        name, bsel, tok = next(b for b in backend_choices() if b[0] == inp["form"])
+        tmp = tempfile.mkdtemp(prefix="verif_c14_r_", dir="/var/tmp")
+        try:
+            z = form_run(inp["entry"], bsel, True, h, pts, more, evl, inp["seekable_source"], tmp)
+            u = form_run(inp["entry"], bsel, False, h, pts, more, evl, inp["seekable_source"], tmp)
+        finally:
+            shutil.rmtree(tmp, ignore_errors=True)
+        c = {"inp": inp, "z": z, "u": u, "tok": form_token(name, tok),
+             "expect_points": np.concatenate([pts.array] + ([more.array] if inp["entry"] in APPEND_ENTRIES else [])).tobytes()}
+        v = form_verdict(c)
+        print(f"replay: {inp['entry']} with laz_backend={bsel.make() if isinstance(bsel, Fresh) else bsel!r} ({form_class(name)}), "
+              f"{len(pts)} points of format {h.point_format.id} (version {h.version}), chunk size {cs}"
+              + (f", {len(more)} points appended" if inp["entry"] in APPEND_ENTRIES else "")
+              + ("" if inp["seekable_source"] else ", non-seekable source"))
+        print(f"  compressed:   {z['outcome']} (backend variants constructed: {z['tried'] or '-'})")
+        print(f"  uncompressed: {u['outcome']}")
+        print("  verdict:", v)
+        print("REPRODUCED" if v else "not reproduced on this source tree")
+        return 1 if v else 0
     if isinstance(inp, dict) and inp.get("case") == "flag-class":
         probs = flag_class_problems()
         for kind, _, why in probs:
